@@ -109,12 +109,14 @@ def parse(path):
                     raise FormatError("attribute %s of %s: %d values announced, file ends after %d" % (aname, sname, count, k),
                                       code="fewer_values_than_announced_in_" + (aname.split("::")[-1] if aname in INTERNAL or "::" in aname else "user_attribute"))
                 t = toks[pos]
-                if t.startswith("["):
+                # a chunk tag where a value is expected: for the numeric element types any bracketed token, for opaque (text) values only the
+                # format's own three tags - a text value may itself be a bracketed word
+                if t in ("[HEAD]", "[ATTS]", "[ATTR]") or (typ in TYPES and t.startswith("[")):
                     raise FormatError("attribute %s of %s: %d values announced, next chunk starts after %d" % (aname, sname, count, k),
                                       code="fewer_values_than_announced_in_" + (aname.split("::")[-1] if aname in INTERNAL or "::" in aname else "user_attribute"))
                 pos += 1
                 vals.append(_value(t, typ, "%s/%s" % (sname, aname)) if typ in TYPES else t)
-            if pos < n and not toks[pos].startswith("["):
+            if pos < n and toks[pos] not in ("[HEAD]", "[ATTS]", "[ATTR]") and not (typ in TYPES and toks[pos].startswith("[")):
                 raise FormatError("attribute %s of %s: more than the %d announced values" % (aname, sname, count),
                                   code="more_values_than_announced_in_" + (aname.split("::")[-1] if aname in INTERNAL or "::" in aname else "user_attribute"))
             attrs.append((sname, aname, typ, esize, dim, vals))
